@@ -730,3 +730,93 @@ Proof.
          conj (proj1 H) (conj (proj1 (proj2 (proj2 (proj2 H)))) (proj1 (proj2 (proj2 (proj2 (proj2 (proj2 H)))))))).
 Qed.
 Print Assumptions C09_judge_sys_model_passes_example.
+
+(* ---------- judge soundness, second pass (pend_ok with a failed query in the log; hist_ok after Filter) ---------- *)
+
+(* sink C09_pending, cases with a scripted failing executed-ranges query.  What the harness guarantees about such a call
+   log (harness/execute/c09_test.go): the table is the log of the ExecutedMessageRanges calls the implementation made,
+   each with the answer it got; failures are scripted PER CHAIN, so every logged call of a chain with a failed call is a
+   failed call, and the failing chain has a commit report ([scripted_failures]); the answers given end below 2^64-1
+   ([answers_below]).  Nothing is assumed about which queries the implementation issued or in which order.  Then the
+   model answers Err ... *)
+Theorem C09_judge_pend_model_failing : forall l tab,
+  groups_good (group_by_chain l) -> answers_below tab -> scripted_failures tab (group_by_chain l) ->
+  reader_failed tab -> pending_reports (Some l) (answer_of tab) = Err.
+Proof. exact pend_model_failing. Qed.
+Print Assumptions C09_judge_pend_model_failing.
+
+(* ... and pend_ok accepts it: (a) for every case of the sinks C09_pending / C09_observe, with or without a failed query *)
+Theorem C09_judge_pend_model_passes_all : forall l tab world,
+  groups_good (group_by_chain l) ->
+  (forall c reps r, In (c, reps) (group_by_chain l) -> In r reps -> p_exec r = []) ->
+  answers_below tab -> scripted_failures tab (group_by_chain l) ->
+  (~ reader_failed tab -> forall c reps, In (c, reps) (group_by_chain l) -> honest_answers tab world c reps) ->
+  pend_ok (Some l, tab, world) (pend_model (Some l, tab, world)) = true.
+Proof. exact pend_model_passes_all. Qed.
+Print Assumptions C09_judge_pend_model_passes_all.
+
+(* the premises are satisfiable with a failed query: chain 2 asked first and failed (chain 1 never asked), and chain 1
+   answered before chain 2 failed; the model says Err, pend_ok accepts Err and rejects an answer *)
+Example C09_judge_pend_failing_example :
+  groups_good (group_by_chain ex_crs) /\
+  (answers_below ex_tab_failing /\ scripted_failures ex_tab_failing (group_by_chain ex_crs) /\ reader_failed ex_tab_failing) /\
+  (answers_below ex_tab_failing2 /\ scripted_failures ex_tab_failing2 (group_by_chain ex_crs) /\ reader_failed ex_tab_failing2) /\
+  pend_model (Some ex_crs, ex_tab_failing, ex_world) = Err /\ pend_model (Some ex_crs, ex_tab_failing2, ex_world) = Err /\
+  pend_ok (Some ex_crs, ex_tab_failing, ex_world) Err = true /\ pend_ok (Some ex_crs, ex_tab_failing2, ex_world) Err = true /\
+  pend_ok (Some ex_crs, ex_tab_failing2, ex_world) (Ok [(1, [mkRep 2 10 12 [(11, 11)]]); (2, [mkRep 7 1 4 []])]) = false.
+Proof. exact pend_failing_example. Qed.
+Print Assumptions C09_judge_pend_failing_example.
+
+(* sinks C09_history / C09_history_big, Filter round (state 3): hist_ok now tests the EXACT pending clause, relative
+   to what the outcome's own report [msgs] holds (so it is true also when not everything fits into one report): an
+   outcome that passes has pending = exactly the committed reports of the snapshot with a message that is neither
+   executed per the snapshot nor in the report, each recording (executed per the snapshot or reported) inside its
+   interval - compare C09_pending_exact / C09_filter_spec_executed and clause (e) of the C09_cycles judge *)
+Theorem C09_judge_hist_sound_filter : forall snap pend msgs omsgs,
+  hist_ok (3, snap) (Ok (pend, msgs, omsgs)) = true -> snap_wf snap ->
+  (forall c r', In (c, r') pend ->
+     exists reps ex r, In (c, reps, ex) snap /\ In r reps /\
+       p_id r' = p_id r /\ p_lo r' = p_lo r /\ p_hi r' = p_hi r /\
+       ~ (forall s, p_lo r <= s <= p_hi r -> in_union ex s \/ In (c, s) msgs) /\
+       (wf_runs (p_exec r') ->
+        strict_runs (p_exec r') /\
+        forall s, in_runs (p_exec r') s <-> (p_lo r <= s <= p_hi r /\ (in_union ex s \/ In (c, s) msgs)))) /\
+  (forall c reps ex r s, In (c, reps, ex) snap -> In r reps -> p_lo r <= s <= p_hi r ->
+     ~ in_union ex s -> ~ In (c, s) msgs ->
+     exists r', In (c, r') pend /\ p_id r' = p_id r /\ p_lo r' = p_lo r /\ p_hi r' = p_hi r).
+Proof. exact hist_sound_filter. Qed.
+Print Assumptions C09_judge_hist_sound_filter.
+
+(* the judge was only strengthened ... *)
+Theorem C09_judge_hist_stronger : forall i o, hist_ok i o = true -> hist_ok_before i o = true.
+Proof. exact hist_ok_stronger. Qed.
+Print Assumptions C09_judge_hist_stronger.
+
+(* ... and what it accepted wrongly: on ex_snap (chain 1: report [10,12] with 11 executed) with a report holding 10 but
+   not 12, dropping the report from the pending list (o1) and keeping it with an empty executed list (o2) both passed;
+   the clause demands o3.  Also the non-vacuity of C09_judge_hist_sound_filter (o3 passes, snap_wf ex_snap). *)
+Example C09_judge_hist_before_weak :
+  let ms := [(1, 10); (2, 1); (2, 4)] in
+  let o1 : hist_out := Ok ([], ms, ms) in
+  let o2 : hist_out := Ok ([(1, mkRep 2 10 12 [])], ms, ms) in
+  let o3 : hist_out := Ok ([(1, mkRep 2 10 12 [(10, 11)])], ms, ms) in
+  hist_ok_before (3, ex_snap) o1 = true /\ hist_ok (3, ex_snap) o1 = false /\
+  hist_ok_before (3, ex_snap) o2 = true /\ hist_ok (3, ex_snap) o2 = false /\
+  hist_ok (3, ex_snap) o3 = true /\
+  (In (1, ex_reports, ex_executed) ex_snap /\ In (mkRep 2 10 12 []) ex_reports /\
+   ~ in_union ex_executed 12 /\ ~ In (1, 12) ms) /\
+  snap_wf ex_snap.
+Proof. exact hist_ok_before_weak. Qed.
+Print Assumptions C09_judge_hist_before_weak.
+
+(* (a) for the ExecSys sinks in general (Proofs/JudgeSoundExecSysAP.v, the C07 row of docs/judge_soundness.md): on every
+   case satisfying the decidable well-formedness facts the harness guarantees ([sys_wf]) and lying outside the recorded
+   class F14 of C08 ([sys_drop]), the model's own output passes the whole walk of sys_safe (carried, owns / reverify,
+   the f+1 clauses (i)-(iv), not-costly, nonces_walk); what remains is the ground-truth clause about the harness's
+   world, which the model never reads *)
+Require Verif.Proofs.JudgeSoundExecSysAP.
+Theorem C09_judge_sys_model_passes : forall i, Verif.Proofs.JudgeSoundExecSysAP.sys_wf i ->
+  Verif.Proofs.JudgeSoundExecSysAP.sys_drop i = false ->
+  C09SysK.sys_safe i (C09SysK.sys_model i) = C09SysK.noreexec_ok (fst (fst i)) (C09SysK.sys_model i).
+Proof. exact Verif.Proofs.JudgeSoundExecSysAP.sys_safe_model. Qed.
+Print Assumptions C09_judge_sys_model_passes.
